@@ -93,6 +93,11 @@ def handle (op : String) (args : Json) : Dec Json := do
     let doc ← decRegion (← field args "doc")
     let dir ← decDir (← field args "dir")
     return answer ids (rowReadingOrder dir doc)
+  | "reading_order" =>
+    let doc ← decRegion (← field args "doc")
+    let dir ← decDir (← field args "dir")
+    let row ← asBool (← field args "row")
+    return answer ids (sortLinesInReadingOrder row dir doc)
   | _ => .error s!"unknown op {op}"
 
 end Pagexml.Drv.C15
